@@ -284,10 +284,14 @@ where
         cell_key: CellKey,
         vertex: Vertex<K::Scalar, U, D>,
     ) -> Result<FlipInfo<D>, FlipError> {
+        // k=1 moves change the vertex set behind the insertion caches' back; drop them so
+        // duplicate detection re-indexes the vertices lazily (as `as_triangulation_mut` does).
+        self.invalidate_insertion_caches();
         self.tri.flip_k1_insert(cell_key, vertex)
     }
 
     fn flip_k1_remove(&mut self, vertex_key: VertexKey) -> Result<FlipInfo<D>, FlipError> {
+        self.invalidate_insertion_caches();
         self.tri.flip_k1_remove(vertex_key)
     }
 
